@@ -389,3 +389,14 @@ GEN_PAIRS = REG.add(Contract(
     props=("C09",),
     note="uses the proved contracts of the two combination rules; itertools.combinations over the atom-type table modelled as a ghost sequence "
          "holding every unordered pair of different names once; frozenset keys as an uninterpreted unordered-pair sort"))
+
+
+def _off_interp(args):
+    params, defines = args["interaction"]["parameters"], args["defines"]
+    pre = [0]
+    for p in params:
+        pre.append(pre[-1] + (len(defines[p]) if p in defines else 1))
+    return {"expanded_before": lambda i: pre[int(i)] if 0 <= int(i) < len(pre) else 0, "__window__": pre[-1] + len(params) + 4}
+
+
+REPLACE_DEFINED.ghost_interp = _off_interp
